@@ -14,6 +14,7 @@ Extracted:
   GeneralGate                   : arguments of the two np.allclose tests, inverse matrix
   inverse() of every composite class : which bound-particle lists the returned gate gets
   qUCC.as_matrix                : every expm argument, the product in the 'sd' branch
+  Circuit.inverse               : the gate list handed to Circuit(...) (reversed list of g.inverse())
 Numpy expressions are translated to terms over the combinators of Qib.Gates.CompModel.
 """
 import ast
@@ -21,6 +22,7 @@ from pyx import Unsupported, parse, find_class, find_func, body_nodoc
 
 GATES = "src/qib/operator/gates.py"
 ANSATZ = "src/qib/algorithms/vqe/ansatz/ansatz.py"
+CIRCUIT = "src/qib/circuit/circuit.py"
 
 
 def up(node):
@@ -288,7 +290,8 @@ def plist_def(name, state):
     return "Definition %s (ps : list nat) : list nat := %s.\n" % (name, "ps" if state == "kept" else "[]")
 
 
-def generate():
+def generate(circuit=False):
+    """circuit=True (property C03): also translate Circuit.inverse (circuit.py)"""
     tree = parse(GATES)
     out = ["(* generated by gen/gates_comp.py from %s and %s -- do not edit *)" % (GATES, ANSATZ),
            "From Qib Require Import Gates.CompModel.", "Section GenGatesComp.", "Context {K : Scalar}.",
@@ -613,9 +616,47 @@ def generate():
             raise Unsupported("qUCC.as_matrix: U is not a list of expm results")
     out += ["(* qUCC.as_matrix: %d expm calls, all with this argument; returns: %s *)" % (len(calls), ",".join(kinds)),
             "Definition gen_qucc_arg (T_mat : BMx K) : BMx K :=\n  %s." % forms.pop(),
-            "Definition gen_qucc_returns_products_of_expm : bool := true.", "",
-            "End GenGatesComp."]
+            "Definition gen_qucc_returns_products_of_expm : bool := true.", ""]
+
+    # ====================================================================== Circuit.inverse (C03 only)
+    if circuit:
+        form, txt = circuit_inverse_form()
+        out += ["(* Circuit.inverse: %s *)" % txt,
+                "Definition gen_circuit_inverse {G} (ginv : G -> G) (gates : list G) : list G := %s." % form, ""]
+    out.append("End GenGatesComp.")
     return "\n".join(out) + "\n"
+
+
+CIRCUIT_INVERSE_FORMS = {
+    "[g.inverse() for g in reversed(self.gates)]": "map ginv (rev gates)",
+    "[g.inverse() for g in self.gates[::-1]]": "map ginv (rev gates)",
+    "[g.inverse() for g in self.gates][::-1]": "rev (map ginv gates)",
+    "list(reversed([g.inverse() for g in self.gates]))": "rev (map ginv gates)",
+    "[g.inverse() for g in self.gates]": "map ginv gates",            # not reversed: the theorem no longer compiles
+}
+
+
+def circuit_inverse_form():
+    """Circuit.inverse() must be `return Circuit(<list of g.inverse()>)`; returns (coq term, source text).
+    Also asserts that the constructor stores the list it is given (`self.gates = list(gates)`) and that
+    as_matrix iterates `self.gates` front to back multiplying from the left."""
+    tree = parse(CIRCUIT)
+    cc = find_class(tree, "Circuit")
+    b = body_nodoc(find_func(cc, "inverse"))
+    if not (len(b) == 1 and isinstance(b[0], ast.Return) and isinstance(b[0].value, ast.Call)
+            and dotted(b[0].value.func) == "Circuit" and len(b[0].value.args) == 1 and not b[0].value.keywords):
+        raise Unsupported("Circuit.inverse: not `return Circuit(<list>)`")
+    txt = up(b[0].value.args[0])
+    if txt not in CIRCUIT_INVERSE_FORMS:
+        raise Unsupported("Circuit.inverse: gate list `%s`" % txt)
+    init = up(find_func(cc, "__init__"))
+    if "self.gates = list(gates)" not in init:
+        raise Unsupported("Circuit.__init__: `self.gates = list(gates)` not found")
+    am = up(find_func(cc, "as_matrix"))
+    for need in ("for gate in self.gates:", "mat = gate.as_circuit_matrix(fields)", "mat = gate.as_circuit_matrix(fields) @ mat"):
+        if need not in am:
+            raise Unsupported("Circuit.as_matrix: `%s` not found" % need)
+    return CIRCUIT_INVERSE_FORMS[txt], txt
 
 
 def single_return_after(fn, first):
@@ -626,4 +667,4 @@ def single_return_after(fn, first):
 
 
 if __name__ == "__main__":
-    print(generate())
+    print(generate(circuit=True))
